@@ -291,6 +291,34 @@ def prop_ledger(sh, case):
             if rows and not fails and (total != got['sum_position'] or totalc != got['sum_convert']):
                 fails.append(('parts:do-not-add-up', f'{sel!r}: groups {total!r} total {got["sum_position"]!r}'))
 
+    # ---- sums of inventories (per-group inventories summed again by an outer query) -----------------------
+    inner = select_ir([(group_ir(g), 'g'), (fn('sum', P), 'inv'), (fn('count', ['star']), 'n')], sel, group_by=[1])
+    I = ['col', 'inv']
+    outer = bql.select([(fn('sum', I), 'total'), (fn('first', I), 'fi'), (fn('cost', fn('sum', I)), 'cost_sum'),
+                        (fn('sum', fn('cost', I)), 'sum_cost'), (fn('units', fn('sum', I)), 'units_sum'),
+                        (fn('sum', fn('units', I)), 'sum_units'), (fn('last', I), 'la'), (fn('sum', ['col', 'n']), 'n')],
+                       ('subq', inner))
+    ro = query(conn, outer)
+    if ro[0] != 'ok':
+        fails.append((exc_sig(ro[1], 'inventories:raises'), f'{sel!r}: {ro[1]!r}'))
+    elif rows:
+        want_groups = {}
+        for e, p in rows:
+            want_groups.setdefault(group_key(g, e, p), []).append(p)
+        invs = [inv_of(pos_of(p) for p in ps) for ps in want_groups.values()]
+        total = inv_of(pos_of(p) for _, p in rows)
+        got_o = dict(zip([d.name for d in ro[1]], ro[2][0])) if len(ro[2]) == 1 else None
+        if got_o is None:
+            fails.append(('inventories:not-one-row', repr(ro[2])))
+        else:
+            if got_o['total'] != total or got_o['n'] != len(rows):
+                fails.append(('inventories:sum-of-group-inventories', f'{sel!r}: {got_o["total"]!r}, whole selection {total!r}'))
+            if got_o['fi'] != invs[0] or got_o['la'] != invs[-1]:
+                fails.append(('inventories:first-last-changed', f'{sel!r}: first {got_o["fi"]!r} want {invs[0]!r}; last {got_o["la"]!r} want {invs[-1]!r}'))
+            if got_o['cost_sum'] != got_o['sum_cost'] or got_o['units_sum'] != got_o['sum_units'] \
+                    or got_o['cost_sum'] != total.reduce(convert.get_cost) or got_o['units_sum'] != total.reduce(convert.get_units):
+                fails.append(('inventories:homomorphism', f'{sel!r}: {got_o!r}'))
+
     # ---- running balance -----------------------------------------------------------------------------
     B = ['col', 'balance']
     inner = bql.select([(['col', 'account'], None)], ('table', 'postings'),
